@@ -87,5 +87,8 @@ Definition C08_readback_statement : Prop :=
                 ask (new_state c) (QState a k) = ask s' (QState a k) /\
                 ask (new_state c) (QCommitted a k) = ask s' (QCommitted a k).
 
-(** reachable states never hit an internal nil dereference / index panic *)
-Definition C08_no_internal_crash_statement : Prop := forall s, reachable s -> st_crashed s = false.
+(** proved since: C08_no_internal_crash, C08_cache_coherent (Properties.v).  Still missing for
+    the three statements above: the invariants "an address in stateObjectsDestruct has its object
+    loaded and carried by Copy" and "objects outside journal.dirties / pending agree with the
+    account trie", and a congruence of every operation for the equivalence of ProofsEqv.v extended
+    with journal.dirties and the pending/dirty sets. *)
